@@ -38,7 +38,7 @@ def plan(tier, seed):
     nb = 90 if tier == "quick" else 500
     return {"shards": len(seeds), "timeout": 900 if tier == "quick" else 3600, "batch": nb, "seeds": seeds,
             "per_shard_env": lambda i: {"PYTHONHASHSEED": seeds[i]},
-            "floors": {"digest_comparisons": nb * len(seeds), "thread_conversions": nb * 2, "temp_files_tracked": nb, "cache_shadow_evals": 1000,
+            "floors": {"suite_conversions_judged": 500, "digest_comparisons": nb * len(seeds), "thread_conversions": nb * 2, "temp_files_tracked": nb, "cache_shadow_evals": 1000,
                        "cross_process_groups": nb, "regeneration_after_refusal": 5 * len(seeds)}}
 
 
